@@ -7,6 +7,7 @@
    No theorem is claimed for compile.c / specials.c. -/
 import JanetModel.Emit.Proofs
 import JanetModel.Bytecode.Exec
+import JanetModel.Lang.SemProps
 namespace JanetModel.Props.C02
 open JanetModel.Emit
 
@@ -97,5 +98,33 @@ example : valOf ((run litN FN m0 (emitSSS (fun _ => 0) 6 true (.loc 300) (.up 1 
 example : valOf ((run litN FN m0 (emitSSS (fun _ => 0) 6 true (.ref 1) (.const (.int 70000)) (.loc 299) 0xF0 0xF1 0xF2 0xF5)).cell 1) = 70000 + 2990 := by
   decide
 example : (Slot.loc 300).avoids [0xF0, 0xF1, 0xF2, 0xF5] := by intro i h; injection h with h; subst h; decide
+
+/-! ### the reference semantics is context independent -/
+section Sem
+open JanetModel.Lang JanetModel.Bytecode.Exec
+
+/-- `sem_context_free`: for the embedding contexts of the property — value used in a new scope, value dropped, branch of a
+    conditional, argument of a call (non-tail, used), spliced into the enclosing scope (top level), body of a function in
+    tail position — evaluating `ctx e` is a fixed post-processing (`closeScope`, `dropValue`, identity, `fnResult`) of
+    evaluating `e`: same value, same effect trace (part of the state), same error and error position.  Fuel offsets are the
+    evaluation steps the wrapper itself takes.  The function context runs `e` in the state `withLam s env e`, i.e. with the
+    closure object of the wrapper added to the heap, and turns a top-level `break` of `e` into the return value.
+    Not proved here (tested by the `loop` / `fn_used` contexts of the check): loop body, non-tail function body. -/
+theorem sem_context_free (n : Nat) (cur : Pos) (env : Env) (e : Expr) (s : SS)
+    (hfree : lookupEnv env "identity" = none) (hsp : isSplice e = none) :
+    eval (n + 2) cur env (ctxDoUsed e) s = closeScope env (eval n cur env e s) ∧
+    eval (n + 4) cur env (ctxDropped e) s = dropValue env (eval (n + 2) cur env e s) ∧
+    eval (n + 3) cur env (ctxBranch e) s = closeScope env (eval (n + 2) cur env e s) ∧
+    eval (n + 3) cur env (ctxArg e) s = eval (n + 1) cur env e s ∧
+    eval (n + 2) cur env (ctxUpscope e) s = eval n cur env e s ∧
+    eval (n + 3) cur env (ctxFnTail e) s = fnResult env (eval n cur env e (withLam s env e)) :=
+  ⟨ctx_do_used n cur env e s, ctx_dropped n cur env e s, ctx_branch n cur env e s, ctx_arg n cur env e s hfree hsp,
+   ctx_upscope n cur env e s, ctx_fn_tail n cur env e s⟩
+
+/-- non-vacuity: evaluation really runs: `(identity :v)` evaluates to `:v` -/
+example : (match eval 10 {} [] (ctxArg (.lit (.kw "v"))) {} with | .ok (.kw x, _) _ => x == "v" | _ => false) = true := by
+  decide
+
+end Sem
 
 end JanetModel.Props.C02
